@@ -154,10 +154,10 @@ func Map(ctx context.Context, args ...object.Object) object.Object {
 		return err
 	}
 	for {
-		if _, ok := iter.Next(ctx); !ok {
+		entry, ok := object.IterNextEntry(ctx, iter)
+		if !ok {
 			break
 		}
-		entry, _ := iter.Entry()
 		k, v := entry.Key(), entry.Value()
 		switch k := k.(type) {
 		case *object.String:
@@ -591,10 +591,10 @@ func Keys(ctx context.Context, args ...object.Object) object.Object {
 func iterKeys(ctx context.Context, iter object.Iterator) object.Object {
 	var keys []object.Object
 	for {
-		if _, ok := iter.Next(ctx); !ok {
+		entry, ok := object.IterNextEntry(ctx, iter)
+		if !ok {
 			break
 		}
-		entry, _ := iter.Entry()
 		keys = append(keys, entry.Key())
 	}
 	return object.NewList(keys)
